@@ -153,9 +153,22 @@ fn patch_extra_errors(errors: &mut Errors) {
         let extra: BTreeMap<String, Vec<ErrorCode>> =
             serde_json::from_str(fs::read_to_string("data/s3_error_codes.json").unwrap().as_str()).unwrap();
 
+        let fmt_status = |s: u16| {
+            let status = http::StatusCode::from_u16(s).unwrap();
+            let reason = status.canonical_reason().unwrap();
+            format!("{s} {reason}")
+        };
+
         for group in extra.values() {
             for ec in group {
-                if errors.contains_key(&ec.code) {
+                if let Some(err) = errors.get_mut(&ec.code) {
+                    // the error code table is authoritative for the HTTP status
+                    if let (Some(s), [status]) = (ec.http_status_code, err.status.as_mut_slice()) {
+                        let is_same = status.as_deref().is_some_and(|x| x.starts_with(s.to_string().as_str()));
+                        if is_same.not() {
+                            *status = Some(fmt_status(s));
+                        }
+                    }
                     continue;
                 }
                 if ec.code == "503 SlowDown" {
@@ -170,11 +183,7 @@ fn patch_extra_errors(errors: &mut Errors) {
                     Error {
                         code: ec.code.clone(),
                         description: vec![Some(ec.description.clone())],
-                        status: vec![ec.http_status_code.map(|s| {
-                            let status = http::StatusCode::from_u16(s).unwrap();
-                            let reason = status.canonical_reason().unwrap();
-                            format!("{s} {reason}")
-                        })],
+                        status: vec![ec.http_status_code.map(fmt_status)],
                     },
                 );
             }
